@@ -129,7 +129,14 @@ class Engine(ExprMixin, StmtMixin, CallMixin):
     def assume(self, c):
         if isinstance(c, bool):
             c = z3.BoolVal(c)
-        self.st.pc.append(c)
+        # conjunctions are stored conjunct by conjunct: hypothesis selection in the solver front end works per conjunct
+        todo = [c]
+        while todo:
+            x = todo.pop(0)
+            if z3.is_and(x):
+                todo = list(x.children()) + todo
+            elif not z3.is_true(x):
+                self.st.pc.append(x)
 
     # ------------------------------------------------------------------ obligations
     def oblige(self, kind, name, goal, clause=None, node=None):
